@@ -30,9 +30,14 @@ where
       else if Bytes.le n c.name then node n v (addPath ns v []) :: c :: cs
       else c :: ins n ns v cs
 
+/-- `DefaultCategorySeparator` (one byte; `Props/C03` checks that the generated constant is) -/
+def sep : UInt8 := match Facts.categorySeparator with
+  | [b] => b
+  | _ => 47
+
 /-- `root.AddDeep(el, "/")` on the root's child list -/
 def addDeep (cs : List Tree) (e : Element) : List Tree :=
-  addPath (splitOn 47 e.name) e.value cs
+  addPath (splitOn sep e.name) e.value cs
 
 /-- the tree built by a balance reporter from the elements it processed, in order -/
 def build (es : Elements) : List Tree := es.foldl addDeep []
@@ -48,7 +53,7 @@ def printChild (collapseLast : Bool) (level : Nat) : Tree → Bytes
     match cs with
     | [] => row t level n
     | [node gn _ []] =>
-      if collapseLast then row t level (n ++ 47 :: gn)
+      if collapseLast then row t level (n ++ sep :: gn)
       else row t level n ++ printChildren collapseLast (level + 1) cs
     | _ => row t level n ++ printChildren collapseLast (level + 1) cs
 /-- `printNode` = loop over `Keys()` -/
@@ -61,10 +66,10 @@ mutual
 /-- `printNodeCollapsed` applied to one child, with the labels of the sole-child chain walked so
     far (`getJump` after the fix for C03: the chain is joined and printing continues below its end) -/
 def printCollapsedChild (pre : List Bytes) (t : Q) (level : Nat) : Tree → Bytes
-  | node n _ [] => row t level (join 47 (pre ++ [n]))
+  | node n _ [] => row t level (join sep (pre ++ [n]))
   | node n _ [c] => printCollapsedChild (pre ++ [n]) t level c
   | node n _ (c1 :: c2 :: cs) =>
-    row t level (join 47 (pre ++ [n]))
+    row t level (join sep (pre ++ [n]))
       ++ printCollapsedChild [] c1.total (level + 1) c1
       ++ printCollapsedChild [] c2.total (level + 1) c2
       ++ printCollapsedChildren (level + 1) cs
